@@ -547,7 +547,7 @@ func (db *SpecDB) parseFile(fname, text string) error {
 	var cur *rawDecl
 	lastIndent := 0
 	for _, l := range lines {
-		first := strings.Fields(l.s)[0]
+		first := clauseWord(l.s)
 		if declStarters[first] && l.indent <= 1 {
 			cur = &rawDecl{file: fname, line: l.n}
 			decls = append(decls, cur)
@@ -581,6 +581,21 @@ func clauseIndentOf(d *rawDecl, last int) int {
 		return 100
 	}
 	return last
+}
+
+// clauseWord: first word of a clause line; a tag list in brackets may contain spaces: ensures[C01 C03]
+func clauseWord(l string) string {
+	l = strings.TrimSpace(l)
+	i := strings.IndexAny(l, " \t[")
+	if i < 0 {
+		return l
+	}
+	if l[i] == '[' {
+		if j := strings.Index(l, "]"); j > i {
+			return l[:j+1]
+		}
+	}
+	return l[:i]
 }
 
 func isClauseStart(w string) bool {
@@ -705,7 +720,7 @@ func (db *SpecDB) parseDecl(d *rawDecl) error {
 			}
 		}
 		for idx, l := range d.lines[1:] {
-			w := strings.Fields(l)[0]
+			w := clauseWord(l)
 			body := strings.TrimSpace(l[len(w):])
 			kw, tags := splitTags(w)
 			switch kw {
@@ -756,7 +771,7 @@ func (db *SpecDB) parseDecl(d *rawDecl) error {
 		c.Trusted = true
 	}
 	for idx, l := range d.lines[1:] {
-		w := strings.Fields(l)[0]
+		w := clauseWord(l)
 		body := strings.TrimSpace(l[len(w):])
 		kw, tags := splitTags(w)
 		mk := func(kind, src string) (*Clause, error) {
